@@ -431,3 +431,44 @@ func boolInt(b bool) int {
 	}
 	return 0
 }
+
+// ---- the receive loop over two successive frames ----
+//
+// A response handed to a caller is decoded by the caller later, concurrently with the receive loop
+// reading the next frame. The frame given to the first caller (header: opcode, flags, stream, length)
+// must therefore be unaffected by anything the receive loop does afterwards.
+func vh_recv_twice() {
+	c := vNewConn()
+	c.session = &Session{logger: vNopLogger{}}
+	n := c.streams.NumStreams
+	k1, k2 := int(vI16("k1")), int(vI16("k2"))
+	vAssume(k1 >= 1 && k1 < n && k2 >= 1 && k2 < n && k1 != k2)
+	c1 := &callReq{streamID: k1, resp: make(chan callResp), timeout: make(chan struct{})}
+	c2 := &callReq{streamID: k2, resp: make(chan callResp), timeout: make(chan struct{})}
+	vEnvChan(c1.resp)
+	vEnvChan(c2.resp)
+	c.calls[k1], c.calls[k2] = c1, c2
+	op1, op2 := frameOp(vU8("op1")), frameOp(vU8("op2"))
+	fl1, fl2 := vU8("flags1"), vU8("flags2")
+	ctx := &vCtx{done: make(chan struct{})}
+	vBodyResult, vDiscards, vHeadErr = 0, 0, nil
+	vHead = frameHeader{version: protoVersion(c.version | 0x80), stream: k1, op: op1, flags: fl1, length: 0}
+	err1 := c.recv(ctx)
+	vAssume(err1 == nil && vSentOn(c1.resp) == 1)
+	r1 := vLastSent(c1.resp).(callResp)
+	vAssert(r1.err == nil && r1.framer != nil && r1.framer.header != nil, "C01/recv/delivers-a-frame-with-its-header")
+	if r1.framer == nil || r1.framer.header == nil {
+		return
+	}
+	vAssert(r1.framer.header.stream == k1 && r1.framer.header.op == op1 && r1.framer.header.flags == fl1, "C01/recv/delivered-frame-carries-the-header-that-was-read")
+	// the next frame arrives before the first caller has decoded its response
+	vHead = frameHeader{version: protoVersion(c.version | 0x80), stream: k2, op: op2, flags: fl2, length: 0}
+	err2 := c.recv(ctx)
+	vAssume(err2 == nil)
+	vAssert(r1.framer.header.stream == k1 && r1.framer.header.op == op1 && r1.framer.header.flags == fl1, "C01/recv/a-delivered-frame-is-not-changed-by-later-frames")
+	if vSentOn(c2.resp) == 1 {
+		r2 := vLastSent(c2.resp).(callResp)
+		vAssert(r2.framer != nil && r2.framer != r1.framer && r2.framer.header != r1.framer.header, "C01/recv/each-response-has-its-own-frame-and-header")
+	}
+	vObserve("delivered", vSentOn(c1.resp)+vSentOn(c2.resp))
+}
